@@ -218,6 +218,11 @@ def jobs(tier):
 
     js = s1_jobs(tier, harness, quick_n5_max_edges=7, with_routes=False)
     js = js[:2] if tier == "quick" else js[:3]
+    from vf.s1common import s1_job_maker, expected
+
+    # numeric strings as names (the source front end's and the repository's YAML fixtures' convention); names that sort after the generated ones
+    js.append(s1_job_maker(harness)("S1-N4-all-entries-numeric-names", 4, None, exp=expected(4, None), prefix=""))
+    js.append(s1_job_maker(harness)("S1-N4-entry-b0-z-names", 4, 0, exp=expected(4, 0), prefix="z"))
     from vf.spaces import s4b_space, realise_s4b
 
     def hb(E, ctx, aux):
